@@ -139,6 +139,7 @@ type AuthOpts struct {
 	Lifetime       time.Duration
 	Slug           string
 	NoProxyClient  bool   // CLIENT_PROXY_ID / CLIENT_PROXY_SECRET are left unset (a misconfigured deployment)
+	ProxySecret    string // CLIENT_PROXY_SECRET when it is not the usual one
 	ProviderType   string // okta (default) | cognito
 }
 
@@ -220,6 +221,9 @@ func NewAuthEnv(o AuthOpts) (*AuthEnv, error) {
 	}
 	if !o.NoProxyClient {
 		env["CLIENT_PROXY_ID"], env["CLIENT_PROXY_SECRET"] = ClientID, ClientSecret
+		if o.ProxySecret != "" {
+			env["CLIENT_PROXY_SECRET"] = o.ProxySecret
+		}
 	}
 	if len(o.EmailDomains) > 0 {
 		env["AUTHORIZE_EMAIL_DOMAINS"] = strings.Join(o.EmailDomains, ",")
